@@ -9,4 +9,11 @@ void Recorder::start() {}
 void Recorder::stop() {}
 void RecordEvent(const char *, const char *, uint32_t) {}
 } }
+#ifdef VP_STUB_CATCHTHROW      // base/catch_throw.cpp without its logging / backtrace side: same catch-everything semantics
+#include <tbox/base/catch_throw.h>
+namespace tbox {
+bool CatchThrow(const std::function<void()> &func, bool, bool) { try { if (func) func(); return false; } catch (...) { return true; } }
+bool CatchThrowQuietly(const std::function<void()> &func) { try { if (func) func(); return false; } catch (...) { return true; } }
+}
+#endif
 #endif
